@@ -204,7 +204,7 @@ func runC16Iso(run *Run, seed int64, cs c16Case) (out []*c01Result) {
 		key = bytes.Repeat([]byte{0x5a}, 16)
 	}
 	rig, err := NewRig(RigOpts{Seed: seed, Label: cs.Recv, Key: key, Spec: NodeSpec{Name: "V", IP: "10.9.9.9", Mutate: func(cf *memberlist.Config) {
-		cf.ProbeInterval = time.Hour
+		cf.ProbeInterval = noProbe
 		cf.PushPullInterval = 0
 		cf.SkipInboundLabelCheck = cs.Skip
 	}}})
